@@ -36,7 +36,7 @@ const (
 	nClients = 5
 	nKeySets = 2
 	nOrigins = 3
-	nBlinds  = 6
+	nBlinds  = 7
 )
 
 // Op is one honest request. Client and key set are constant along a history; they are
@@ -160,6 +160,8 @@ func blind(b int) []byte {
 		return bytes.Repeat([]byte{0xff}, 48)
 	case 5:
 		return mc.Fill(seedBase, "blind-64-bytes", 64)
+	case 6: // 48 zero bytes: the blind of value zero is hashed like any other
+		return make([]byte, 48)
 	case 0:
 		return sc(big.NewInt(1))
 	case 1:
@@ -620,8 +622,8 @@ func main() {
 		r.DoReplay()
 	}
 
-	r.SetRule("for every client in {c1,c2,c3} and index-key set in {0,1}: every sequence of 1..depth honest requests over the menu origin{o1,o2,o3} x blind{b1..b6}, plus per origin a request with a second one in flight (21 letters, no state merging) on one attester; each step runs create -> VerifyRequest -> Evaluate -> FinalizeIndex -> FinalizeToken; every history is a distinct case and non-trivial (an ID is derived at every step); plus all pairs of the 18 (client, index key) combinations for distinctness")
-	r.Assume("values come from fixed alphabets: client secrets {1, leading-zero-byte, DRBG}; index keys {1, N-1, leading-zero | 2, DRBG, two-leading-zeros}; blinds {1, N-1, leading-zero, DRBG, 2^384-1, 64 bytes}; client secrets and index keys in [1, N-1]",
+	r.SetRule("for every client in {c1,c2,c3} and index-key set in {0,1}: every sequence of 1..depth honest requests over the menu origin{o1,o2,o3} x blind{b1..b7}, plus per origin a request with a second one in flight (21 letters, no state merging) on one attester; each step runs create -> VerifyRequest -> Evaluate -> FinalizeIndex -> FinalizeToken; every history is a distinct case and non-trivial (an ID is derived at every step); plus all pairs of the 18 (client, index key) combinations for distinctness")
+	r.Assume("values come from fixed alphabets: client secrets {1, leading-zero-byte, DRBG}; index keys {1, N-1, leading-zero | 2, DRBG, two-leading-zeros}; blinds {1, N-1, leading-zero, DRBG, 2^384-1, 64 bytes, zero}; client secrets and index keys in [1, N-1]",
 		"the anonymous origin id argument is fixed per origin (honest attester input), so FinalizeIndex has no reason to reject",
 		"reference: own expand_message_xmd/hash_to_field (RFC 9380, SHA-384, DST 'ECDSA Key Blind', L=72) over minimal big-endian bytes(index key)||00||0003'IssuerBlind', crypto/elliptic point arithmetic, x/crypto/hkdf",
 		"nonce, challenge bytes, challenge length (32,0,65,1000 by position) and all entropy differ at every step; crypto/rand.Reader is a per-goroutine SHA-256 counter DRBG")
